@@ -480,6 +480,17 @@ def _t_cap_from_lightest(tree):
     _cap_subsets(tree, "")
 
 
+def _v_running_literal_cached(tree):
+    g = M.find_func(tree, "SATEncoder._encode_cumulative")
+    loops = [n for n in ast.walk(g) if isinstance(n, ast.For) and M.src_is(n.target, "t")]
+    if not loops:
+        raise M.Skip("time loop not found")
+    idx = g.body.index(loops[0])
+    g.body.insert(idx, M.stmts("cache = {}")[0])
+    if not M.replace_stmt(g, lambda s: isinstance(s, ast.If) and M.src_is(s.test, "len(lits) == 1"), M.stmts("key = (i, lits[0])\nif len(lits) == 1:\n    running = lits[0]\nelif key in cache:\n    running = cache[key]\nelse:\n    running = cache[key] = self._new_bool_var()\n    for lit in lits:\n        self._clauses.append([-lit, running])")):
+        raise M.Skip("running definition not found")
+
+
 def _v_flatten_memo_on_model(tree):
     g = M.find_func(tree, "Model._flatten_sum")
     M.replace_stmt(g, lambda s: isinstance(s, ast.Return) and M.src_has(s, "coefs"), lambda s: M.stmts("self._flat_cache = {id(expr): (coefs, const)}") + [s], count=1)
@@ -590,6 +601,7 @@ VARIANTS = [
     M.Variant("encoder dispatches on shapes again (original defect)", ENC, _v_shape_again, "C06-O4"),
     M.Variant("auxiliary variables keep the model's literals and the encoder counter is re-synchronised (seed C05-D)", ENC, _v_resync_counter, "C06-O7"),
     M.Variant("the shared flattener memoises its result on the model, and the encoder merges into it in place (seed C06-L)", "solvor/cp.py", _v_flatten_memo_on_model, "C06-O7"),
+    M.Variant("cumulative shares one running literal between instants whose windows start alike (seed C06-M)", ENC, _v_running_literal_cached, "C06-O"),
     M.Variant("overloading subsets capped at (number of heaviest tasks that fit) + 1 (seed C06-A)", ENC, _v_cap_from_heaviest, "C06-O13"),
     M.Variant("twin: overloading subsets capped at (number of lightest tasks that fit) + 1", ENC, _t_cap_from_lightest, None),
     M.Variant("auxiliary variables are registered in the model and re-encoded by the next solve (original defect)", ENC, _v_aux_registered, "C06-O7"),
